@@ -8,6 +8,7 @@ CONSTANTS
   MaxOps = 0
   MaxCredit = 5
   MaxTick = 3
+  Limit = 2
 SPECIFICATION Spec
 INVARIANT EmitDirected
 CHECK_DEADLOCK FALSE
